@@ -42,7 +42,7 @@ class Prop:
             'without a TagBlockQueue; each sequence is fed to IterMessages, ByteStream, BinaryIOStream (LF-joined '
             'file), SocketStream (seeded random chunking, CRLF), NMEAQueue, and every delivered message\'s parts to '
             'decode(); all deliveries (raw, payload, bits, validity, wrapper, tag block, carrier fields) must agree; '
-            'each run is also compared with the Lean model; non-trivial = at least one multi-part delivery')
+            'each run is also compared with the Lean model; non-trivial = at least one multi-part delivery ; attaching a TagBlockQueue must not change the deliveries; sentences behind unparsable tag blocks; sequence id 0 next to the empty id in every interleaving; every reader through its self-consistency family (DESIGN §4.2)')
     assumptions = ['lines with leading whitespace or a start delimiter other than $ ! \\ are the documented difference '
                    'between IterMessages/NMEAQueue and the Stream front-ends and are excluded']
 
